@@ -118,7 +118,7 @@ def search(ctx, res):
     sub.runner, sub.harness, sub.vbrush = ctx.runner, ctx.harness, ctx.vbrush
     progs = gen_programs(sub, 30000)
     ev = lib.evaluate(sub, progs)
-    specv = [v for v in ev["specv"] if not v.get("known")] or [v for v in ev["specv"] if v.get("known") == "KF-C03-compound"][:3]
+    specv = [v for v in ev["specv"] if not v.get("known")] or ev["specv"][:3]
     specv.sort(key=lambda v: len(v["input"]))
     return {"evaluations": ev["evaluated"], "spec_violations": specv[:5]}
 
